@@ -323,9 +323,14 @@ class C10(Monitor):
         except re.error:
             acc.count('operand_unparsable')
             return
-        if p.width is None or _has_ref(p.tree):
+        if p.width is None:
             acc.count('width_unspecified')
             return
+        if _has_ref(p.tree):
+            # references to groups defined outside the assertion: the width is computed with every such group having one fixed
+            # width (the reference context); if it is variable even then it is variable in every context, and if it is fixed
+            # then no construction-time check can know better
+            acc.count('width_relative_to_referenced_groups')
         lo, hi = p.width
         fixed = lo == hi
         nf = [lab for lab, (k, v) in tr.outcomes if k == 'raise' and _exc_name(v) == 'NonFixedWidthPatternException']
